@@ -714,6 +714,108 @@ fn import_error_messages(ctx: &Ctx, report: &mut Report) -> usize {
     n
 }
 
+/// Errors the interpreter raises are fresh objects: what a handler did to an error it caught (a changed
+/// message, added fields, the error kept in a global) never shows in a later error of the same kind.  For
+/// every kind of failure the interpreter itself raises (one failing built-in operation per error class, an
+/// import that fails, too many active calls, an operand stack that runs full) the failing function is run
+/// once alone - that report is the reference - and then after the same failure was caught and the caught
+/// error changed: later in the same program, in the next program on the same interpreter, and after a reset.
+/// Every report (class, message, trace) must be the reference report.
+fn errors_are_fresh_objects(ctx: &Ctx, report: &mut Report) -> usize {
+    let wide: String = {
+        // a function whose activation holds 250 locals and calls itself inside a wide literal: the operand
+        // stack is full long before the limit of active calls is reached
+        let locals: String = (0..250).map(|i| format!("  var l{} = n;\n", i)).collect();
+        format!("fn fail() {{ return deep(0); }}\nfn deep(n) {{\n{}  return [{}deep(n + 1)];\n}}\n", locals, "n, ".repeat(120))
+    };
+    let kinds: Vec<(&'static str, String)> = vec![
+        ("TypeError", "fn fail() { return 1 + nil; }\n".into()),
+        ("NameError", "fn fail() { return zz_undefined; }\n".into()),
+        ("AttributeError", "fn fail() { return (1).zz_nothing; }\n".into()),
+        ("IndexError", "fn fail() { return [1, 2][7]; }\n".into()),
+        ("ValueError", "fn fail() { return 1..1.5; }\n".into()),
+        ("RuntimeError", "fn fail() { var f = Fiber.new(|| 1); f.call(); return f.call(); }\n".into()),
+        ("ImportError", "fn fail() { import \"zz_nowhere\"; return 0; }\n".into()),
+        ("too many active calls", "fn fail() { return fail(); }\n".into()),
+        ("operand stack full", wide),
+    ];
+    let handlers: Vec<(&'static str, &'static str)> = vec![
+        ("message changed", "try { fail(); } catch e { e.context = \"changed by the handler\"; }\n"),
+        ("message changed and the error kept", "var kept = nil;\ntry { fail(); } catch e { e.context = \"changed: \" + e.context; e.extra = [1]; kept = e; }\n"),
+        ("message changed, error thrown again and caught again", "try { try { fail(); } catch e { e.context = \"first: \" + e.context; throw e; } } catch e2 { e2.context = \"second: \" + e2.context; }\n"),
+    ];
+    let mut cases: Vec<(String, String, String, String)> = Vec::new();
+    for (kind, decl) in &kinds {
+        for (hname, handler) in &handlers {
+            cases.push((kind.to_string(), hname.to_string(), decl.clone(), handler.to_string()));
+        }
+    }
+    let n = cases.len();
+    let results = par_map(&ctx.runner_checked, ctx.workers.min(9), cases.into_iter(), |runner, _i, (kind, hname, decl, handler)| {
+        runner.timeout = std::time::Duration::from_secs(60);
+        let blank: String = handler.chars().filter(|c| *c == '\n').collect();
+        // the handler's lines are blank lines in the reference, so that every trace line agrees
+        let reference = format!("{}{}fail();\n", decl, blank);
+        let same_program = format!("{}{}fail();\n", decl, handler);
+        let first = format!("{}{}", decl, handler);
+        let later = format!("{}{}fail();\n", decl, blank);
+        let run = |runner: &mut crate::pool::Runner, snippets: Vec<String>| -> Result<Vec<proto::SnippetResult>, String> {
+            let mut req = Request { op: "run".into(), snippets, fuel: Some(50_000_000), ..Default::default() };
+            let obs = runner.call(&mut req);
+            match obs.resp() {
+                Some(r) => Ok(r.results.clone()),
+                None => Err(format!("run ended in {}", obs.describe())),
+            }
+        };
+        let mut problems: Vec<(String, Vec<String>)> = Vec::new();
+        let want = match run(runner, vec![reference.clone()]) {
+            Ok(r) => match r.get(0).map(|x| x.outcome.clone()) {
+                Some(proto::Outcome::Err { kind, messages }) if messages.len() >= 2 => (kind, messages),
+                other => {
+                    problems.push((format!("the failing function run alone ends with {:?}", other), vec![reference.clone()]));
+                    return (kind, hname, problems);
+                }
+            },
+            Err(e) => {
+                problems.push((e, vec![reference.clone()]));
+                return (kind, hname, problems);
+            }
+        };
+        // (vacuity guard: the operand stack has to run full before the limit of active calls is reached)
+        if kind == "operand stack full" && want.1.len() >= 64 {
+            crate::pool::machinery_failure("C17 errors_are_fresh_objects: the wide-frame program reaches the limit of active calls, not the end of the operand stack");
+        }
+        let histories: Vec<(&str, Vec<String>)> = vec![
+            ("later in the same program", vec![same_program.clone()]),
+            ("in the next program on the same interpreter", vec![first.clone(), later.clone()]),
+            ("after a reset", vec![first.clone(), proto::RESET_SNIPPET.to_string(), later.clone()]),
+            ("in the third program", vec![first.clone(), first.clone(), later.clone()]),
+        ];
+        for (when, snippets) in histories {
+            match run(runner, snippets.clone()) {
+                Ok(r) => {
+                    if r.len() != snippets.len() {
+                        problems.push((format!("{}: {} results for {} programs: {:?}", when, r.len(), snippets.len(), r.last().map(|x| &x.outcome)), snippets));
+                        continue;
+                    }
+                    match r.last().map(|x| x.outcome.clone()) {
+                        Some(proto::Outcome::Err { kind, messages }) if kind == want.0 && messages == want.1 => {}
+                        other => problems.push((format!("{}: the second failure is reported as {:?}; the same failure on a new interpreter is reported as {:?}", when, other, want), snippets)),
+                    }
+                }
+                Err(e) => problems.push((format!("{}: {}", when, e), snippets)),
+            }
+        }
+        (kind, hname, problems)
+    });
+    for (kind, hname, problems) in results {
+        for (p, snippets) in problems {
+            report.violations.push((format!("[errors are fresh objects: {}, {}] {}", kind, hname, p), json!({"family": "errors_are_fresh_objects", "request": {"op": "run", "snippets": snippets}, "problem": p})));
+        }
+    }
+    n * 4
+}
+
 /// programs for C02: every uncaught-error program without modules (the error report itself must not
 /// panic, whatever was raised and handled before)
 pub fn sources_for_c02() -> Vec<String> {
@@ -743,6 +845,8 @@ pub fn run(ctx: &Ctx) -> Report {
     report.cov("caught_equals_uncaught_pairs", json!(n_ceq));
     report.cov("compile_error_line_cases", json!(n_lines));
     let n_imp = import_error_messages(ctx, &mut report);
+    let n_fresh = errors_are_fresh_objects(ctx, &mut report);
+    report.cov("errors_are_fresh_objects_histories", json!(n_fresh));
     report.cov("import_error_message_cases", json!(n_imp));
     report.assumptions = vec![
         "frames of the library written in the language itself are matched by function name and position only".into(),
